@@ -110,7 +110,7 @@ func c18Writer(r *eng.Run, mode int) {
 	seed1 := r.T.U32(sim.LPaySeed)
 	p1 := NewPipe(r, nil)
 	failed := false
-	if mode == 0 || mode == 2 {
+	{
 		if r.T.Chance(sim.LFault, 1, 3) {
 			p1.WFailAt = r.T.Int(sim.LFaultAt, 4)
 			p1.WFailN = r.T.Int(sim.LFaultAt, 3)
@@ -182,6 +182,7 @@ func c18Writer(r *eng.Run, mode int) {
 		w.ResetOp(ws.OpCode(cfg2.Op))
 		reused = w
 		p2 = p1
+		p1.Heal() // the destination works again
 	case 2:
 		wsutil.PutWriter(w)
 		// The next user asks for the same size, or for one of the next class.
@@ -227,10 +228,26 @@ func c18Writer(r *eng.Run, mode int) {
 	base := len(p2.Out)
 	rand.Seed(rs)
 	wrA := &WRun{Cfg: cfg2, Ops: h2, Pipe: p2, W: reused}
-	if mode == 1 && failed {
-		return
-	}
 	ExecHistory(r, wrA, seed2, nil)
+	if mode == 1 && failed {
+		// The quick reset after an I/O error: the writer may go on refusing
+		// (nothing more is sent, every call reports an error), or work again -
+		// then with the extensions and the flush mode it was given, like a new
+		// writer with those options. Not something in between.
+		refusing := len(p2.Out) == base
+		for _, ob := range wrA.Obs {
+			switch ob.Op.Kind {
+			case WOpWrite, WOpWriteEmpty, WOpThrough, WOpFlushFrag, WOpFlush:
+				if ob.Err == nil {
+					refusing = false
+				}
+			}
+		}
+		if refusing {
+			r.Probe("resetop_after_failed_write_keeps_refusing")
+			return
+		}
+	}
 	rand.Seed(rs)
 	wrB := &WRun{Cfg: cfg2, Ops: h2, Pipe: p3, W: fresh}
 	ExecHistory(r, wrB, seed2, nil)
@@ -675,11 +692,47 @@ func c18ReaderNext(r *eng.Run) {
 	r.SetEntry("Reader.consecutive")
 	cfg := ReadCfg{App: AppReader, CheckUTF8: r.T.Bool(sim.LCfg), OnInter: r.T.Int(sim.LCfg, 4), OnCont: r.T.Bool(sim.LCfg), ProbeIdle: true}
 	cfg.ContErr = cfg.OnCont && r.T.Chance(sim.LCfg, 1, 3)
+	cfg.SwapSource = r.T.Bool(sim.LCfg)
 	if r.T.Bool(sim.LSide) {
 		cfg.Side = ref.Client
 	}
 	s := GenStream(r, StreamCfg{Recv: cfg.Side, MaxMsgs: 4, TextValid: true, Budget: 4096})
 	seg := DrawSeg(r)
+	if r.T.Chance(sim.LCfg, 1, 4) && !cfg.ContErr {
+		// The size limit is configuration like any other: it holds for the
+		// second and every later message as for the first.
+		first, k, maxBefore := true, -1, int64(0)
+		for i, f := range s.Frames {
+			if !first && int64(len(f.Payload)) > maxBefore && len(f.Payload) > 1 {
+				k = i
+				break
+			}
+			if int64(len(f.Payload)) > maxBefore {
+				maxBefore = int64(len(f.Payload))
+			}
+			if !ref.IsControl(f.Op) && f.Fin {
+				first = false // a data message is complete
+			}
+		}
+		if k >= 0 {
+			lim := maxBefore
+			if lim == 0 {
+				lim = 1
+			}
+			cfg.MaxFrameSize = lim + int64(r.T.Int(sim.LSize, len(s.Frames[k].Payload)-int(lim)))
+			p := NewPipe(r, s.Wire)
+			p.Marks, p.SegMode = MarksOf(s.Frames), seg
+			o := RunApp(r, p, cfg)
+			r.Note("C18 Reader.consecutive MaxFrameSize=%d, frame %d (%s) of a later message exceeds it; stream %s", cfg.MaxFrameSize, k, frameStr(s.Frames[k]), s.Describe())
+			r.Res.Nontrivial = true
+			r.Probe("size_limit_first_exceeded_in_a_later_message")
+			if o.Err != wsutil.ErrFrameTooLarge {
+				r.Failf("reset_differs_from_new", "Reader with MaxFrameSize=%d: frame %d (%s), the first one above the limit, comes after a complete message and ended with %v from %s; a new Reader refuses it with %v",
+					cfg.MaxFrameSize, k, frameStr(s.Frames[k]), o.Err, o.ErrAt, wsutil.ErrFrameTooLarge)
+			}
+			return
+		}
+	}
 	// Reader A reads the whole stream.
 	pa := NewPipe(r, s.Wire)
 	pa.Marks, pa.SegMode = MarksOf(s.Frames), seg
